@@ -131,7 +131,7 @@ fn pipe_case(rt: &tokio::runtime::Runtime, dir: &Path, case: &Value, n: usize) -
 	let built = catch(|| rt.block_on(factory.operation_from_vpl(&vpl)));
 	let empty = |ev: &mut Value| {
 		ev["declared"] = json!({"tf":"","tc":""});
-		for k in ["cov", "lookups", "streams", "expect", "child_cov"] {
+		for k in ["cov", "lookups", "streams", "expect", "child_cov", "kids"] {
 			ev[k] = json!([]);
 		}
 	};
@@ -173,23 +173,46 @@ fn pipe_case(rt: &tokio::runtime::Runtime, dir: &Path, case: &Value, n: usize) -
 	ev["cov"] = pyramid_json(&parameters.bbox_pyramid);
 	let reader = PipelineReader { name: "pipe".into(), operation: op, parameters };
 	// identity of delivered bytes: decode with the DECLARED codec, look the raw payload up in all sources
-	let id_of = |bytes: &[u8]| -> i64 {
-		match indep::decode(&declared, bytes) {
+	let id_with = |declared: &str, bytes: &[u8]| -> i64 {
+		match indep::decode(declared, bytes) {
 			// generated tiles (from_debug) are identified by a hash of their bytes
 			Ok(b) if is_debug => (crate::mem::h31(&b) | 0x4000_0000) as i64,
 			Ok(b) => sources.iter().find_map(|s| s.raw.get(&b)).map(|p| *p as i64).unwrap_or(RES_UNKNOWN),
 			Err(_) => RES_UNKNOWN,
 		}
 	};
-	let look = |z: u8, x: u32, y: u32| -> i64 {
+	let id_of = |bytes: &[u8]| -> i64 { id_with(&declared, bytes) };
+	let look_in = |reader: &PipelineReader, declared: &str, z: u8, x: u32, y: u32| -> i64 {
 		let c = TileCoord3::new(x, y, z).unwrap();
 		match catch(|| rt.block_on(reader.get_tile_data(&c))) {
-			Ok(Ok(Some(b))) => id_of(b.as_slice()),
+			Ok(Ok(Some(b))) => id_with(declared, b.as_slice()),
 			Ok(Ok(None)) => RES_NONE,
 			Ok(Err(_)) => RES_ERR,
 			Err(_) => RES_PANIC,
 		}
 	};
+	let look = |z: u8, x: u32, y: u32| -> i64 { look_in(&reader, &declared, z, x, y) };
+	// a tree that MIXES overlays and filters is additionally judged RELATIVE to what its direct children deliver (so that a
+	// failure is attributed to the root operation only if the root itself is wrong): every direct child is built on its own
+	// and asked the same lookups and streams
+	let mixed = !is_debug && vpl.contains("from_overlayed") && (vpl.contains("filter_zoom") || vpl.contains("filter_bbox"));
+	let mut kids: Vec<Option<(PipelineReader, String)>> = vec![];
+	if mixed {
+		let subtrees: Vec<&Value> = if tree["op"] == "overlay" { tree["srcs"].as_array().unwrap().iter().collect() } else { vec![&tree["src"]] };
+		for child in subtrees {
+			let cv = render(child);
+			kids.push(match catch(|| rt.block_on(factory.operation_from_vpl(&cv))) {
+				Ok(Ok(cop)) => {
+					let cp = cop.get_parameters().clone();
+					let d = cp.tile_compression.as_str().to_string();
+					Some((PipelineReader { name: "kid".into(), operation: cop, parameters: cp }, d))
+				}
+				_ => None,
+			});
+		}
+	}
+	let mut kid_lookups: Vec<Vec<i64>> = kids.iter().map(|_| vec![]).collect();
+	let mut kid_streams: Vec<Vec<Value>> = kids.iter().map(|_| vec![]).collect();
 	// lookups: every coordinate any source has, its neighbours, and all coordinates of levels 0..2
 	let mut coords: std::collections::BTreeSet<(u8, u32, u32)> = Default::default();
 	for s in &sources {
@@ -220,6 +243,12 @@ fn pipe_case(rt: &tokio::runtime::Runtime, dir: &Path, case: &Value, n: usize) -
 		let r = look(*z, *x, *y);
 		looked.insert((*z, *y, *x), r);
 		lookups.push(json!([z, x, y, r]));
+		for (k, kid) in kids.iter().enumerate() {
+			kid_lookups[k].push(match kid {
+				Some((kr, kd)) => look_in(kr, kd, *z, *x, *y),
+				None => RES_ERR,
+			});
+		}
 	}
 	ev["lookups"] = json!(lookups);
 	// streams: per level with tiles: full level (<= level 6), hull of all sources' tiles, half boxes, single tiles,
@@ -273,6 +302,22 @@ fn pipe_case(rt: &tokio::runtime::Runtime, dir: &Path, case: &Value, n: usize) -
 					Err(p) => json!({"box": crate::c15::box_json(&b), "status":"panic", "res": [], "panic": p.chars().take(160).collect::<String>()}),
 				}
 			};
+			for (k, kid) in kids.iter().enumerate() {
+				kid_streams[k].push(match kid {
+					Some((kr, kd)) => {
+						let bb = b.clone();
+						match catch(|| rt.block_on(async { tokio::time::timeout(std::time::Duration::from_secs(30), async { kr.get_bbox_tile_stream(bb).await.collect().await }).await })) {
+							Ok(Ok(items)) => {
+								let mut v: Vec<(u8, u32, u32, i64)> = items.iter().map(|(c, blob)| (c.z, c.y, c.x, id_with(kd, blob.as_slice()))).collect();
+								v.sort();
+								json!({"status":"ok", "res": v.iter().map(|t| json!([t.0, t.2, t.1, t.3])).collect::<Vec<_>>()})
+							}
+							_ => json!({"status":"bad", "res": []}),
+						}
+					}
+					None => json!({"status":"bad", "res": []}),
+				});
+			}
 			if !b.is_empty() && b.count_tiles() <= 256 {
 				for c in b.iter_coords() {
 					looked.entry((c.z, c.y, c.x)).or_insert_with(|| look(c.z, c.x, c.y));
@@ -287,6 +332,7 @@ fn pipe_case(rt: &tokio::runtime::Runtime, dir: &Path, case: &Value, n: usize) -
 		}
 	}
 	ev["streams"] = json!(streams);
+	ev["kids"] = json!(kids.iter().enumerate().map(|(k, kid)| json!({"built": kid.is_some() as u8, "lookups": kid_lookups[k], "streams": kid_streams[k]})).collect::<Vec<_>>());
 	ev["expect"] = json!(looked.iter().filter(|(_, r)| **r > 0 || **r == RES_UNKNOWN).map(|((z, y, x), r)| json!([z, x, y, r])).collect::<Vec<_>>());
 	for p in file_paths {
 		remove_path(&p);
